@@ -355,7 +355,7 @@ func (p *Prog) dominatedByTailSurvived(b *ssa.BasicBlock, rs ssa.Value) bool {
 // ---------------------------------------------------------------------------
 // R13b: Find adopts every file that carries the log suffix.
 func (p *Prog) findAdoptsAll() Ob {
-	ob := Ob{Rule: "R13", Inst: "find-adopts-every-log", Props: []string{"C02", "C01", "C20"}, Pos: "-", Func: "segment.Find", Nontrivial: true}
+	ob := Ob{Rule: "R13", Inst: "find-adopts-every-log", Props: []string{"C02", "C01", "C20", "C05"}, Pos: "-", Func: "segment.Find", Nontrivial: true}
 	fn := p.pkgFunc(pkgSegment, "Find")
 	if fn == nil {
 		ob.Status, ob.Msg = Undecided, "segment.Find not found"
@@ -386,6 +386,20 @@ func (p *Prog) findAdoptsAll() Ob {
 			call, _ = ex.Tuple.(*ssa.Call)
 		} else {
 			call, _ = cond.(*ssa.Call)
+		}
+		// filepath.Ext(name) == ".log" (also as a switch case)
+		if bo, ok := cond.(*ssa.BinOp); ok && (bo.Op == token.EQL || bo.Op == token.NEQ) {
+			for _, pair := range [][2]ssa.Value{{bo.X, bo.Y}, {bo.Y, bo.X}} {
+				if ec, ok := pair[0].(*ssa.Call); ok && calleeName(ec.Common()) == "path/filepath.Ext" {
+					if k, ok := constString(pair[1]); ok && k == ".log" {
+						test = iff
+						okEdge = 0
+						if (bo.Op == token.NEQ) == pos {
+							okEdge = 1
+						}
+					}
+				}
+			}
 		}
 		if call == nil {
 			continue
@@ -449,6 +463,21 @@ func (p *Prog) findAdoptsAll() Ob {
 	}
 	walk(test.Block().Succs[okEdge])
 	sort.Strings(bad)
+	// Find fails only because a call it made failed (reading the directory, parsing an offset): the
+	// presence of other files - temporaries a crash left behind, the lock - is never a reason
+	for _, rt := range returnsOf(fn) {
+		if c, ok := returnOperand(rt, errResultIndex(fn)).(*ssa.Call); ok {
+			own := calleeName(c.Common()) == "errors.New"
+			if calleeName(c.Common()) == "fmt.Errorf" {
+				if f, ok := constString(c.Call.Args[0]); ok && !strings.Contains(f, "%w") {
+					own = true
+				}
+			}
+			if own {
+				bad = append(bad, p.at(rt)+": the listing is refused with an error of Find's own making (a file it does not know)")
+			}
+		}
+	}
 	if len(bad) > 0 {
 		ob.Status, ob.Msg, ob.Path = Violated, "segment.Find does not adopt every *.log file: an empty head segment (whose name is the only record of the next offset) can be lost on reopen", uniqStrings(bad)
 	} else {
